@@ -329,3 +329,83 @@ Proof.
       cbn. rewrite (Hc cpus H1), (IHt H2). reflexivity.
     + apply procs_top_parallel; [lia|lia|assumption].
 Qed.
+
+(* ---------------------------------------------------------------- statements of Props/C15.v (the file Props/C15.v only restates them and closes each with `exact`) *)
+Lemma C15_translation_matches_model_holds : forall k e level n os_raw aff cg loky_env,
+  eff_gen k e level n = eff_model k e level n /\
+  cpu_count os_raw aff cg loky_env false = Ok (cpu_count_model os_raw aff cg loky_env).
+Proof. intros. split; [apply eff_gen_eq_model | apply gen_cpu_count_eq]. Qed.
+
+Lemma C15_resolve_holds : forall k e level n,
+  n <> 0 -> unguarded e level ->
+  exists v, eff_gen k e level n = Ok v /\ v >= 1 /\
+            v = match k with KSeq => 1
+                | _ => if n <? 0 then Z.max (e_cpus e + 1 + n) 1 else n end.
+Proof.
+  intros k e level n Hn Hu. rewrite eff_gen_eq_model, (eff_unguarded k e level n Hn Hu).
+  eexists; split; [reflexivity|]. split; [|reflexivity].
+  destruct k; [lia|apply resolve_ge1; assumption..].
+Qed.
+
+Lemma C15_negative_le_cpus_holds : forall k e level n v,
+  n < 0 -> 1 <= e_cpus e -> eff_gen k e level n = Ok v -> 1 <= v <= e_cpus e.
+Proof.
+  intros k e level n v Hn Hc H. rewrite eff_gen_eq_model in H. pose proof (eff_ge1 _ _ _ _ _ H) as G.
+  split; [lia|]. pose proof (resolve_le_cpus (e_cpus e) n Hn Hc) as R.
+  destruct k; cbn [eff_model] in H; unfold pool_eff in H;
+  repeat match type of H with
+         | context [if ?c then _ else _] => destruct c
+         end; inversion H; subst; lia.
+Qed.
+
+Lemma C15_at_least_one_holds : forall k e level n v, eff_gen k e level n = Ok v -> v >= 1.
+Proof. intros k e level n v H. rewrite eff_gen_eq_model in H. exact (eff_ge1 _ _ _ _ _ H). Qed.
+
+Lemma C15_zero_rejected_holds : forall k e level,
+  (k = KMp -> unguarded e level) -> eff_gen k e level 0 = Raise ValueError.
+Proof. intros. rewrite eff_gen_eq_model. apply eff_zero; assumption. Qed.
+
+Lemma C15_zero_rejected_refuted_holds : exists e level,
+  eff_gen KMp e level 0 = Ok 1.
+Proof.
+  exists {| e_mp_none := false; e_cpus := 4; e_daemon := false; e_depth := 0; e_main := false |}, 1.
+  vm_compute. reflexivity.
+Qed.
+
+Lemma C15_one_is_sequential_holds : forall b e,
+  configure b e 1 = Ok ({| bkind := KSeq; blevel := blevel b |}, 1) /\
+  forall s, worker_site s {| bkind := KSeq; blevel := blevel b |} = s.
+Proof. intros. split; [apply configure_one | reflexivity]. Qed.
+
+Lemma C15_cpu_count_holds : forall os_raw aff cg loky_env,
+  exists v, cpu_count os_raw aff cg loky_env false = Ok v /\ v >= 1 /\
+  (forall c, 1 <= c -> (c = os_count os_raw \/ aff = Some c \/ cg = Some c \/ loky_env = Some c) -> v <= c) /\
+  v = Z.max 1 (Z.min (os_count os_raw) (Z.min (orelse aff (os_count os_raw))
+                 (Z.min (orelse cg (os_count os_raw)) (orelse loky_env (os_count os_raw))))).
+Proof.
+  intros. rewrite gen_cpu_count_eq. eexists; split; [reflexivity|]. split; [apply cpu_count_ge1|].
+  split; [intros c Hc H; apply cpu_count_le_constraint; assumption | apply cpu_count_is_min].
+Qed.
+
+Lemma C15_nested_process_backend_is_sequential_holds : forall e level n,
+  n <> 0 ->
+  ((e_daemon e = true \/ (e_main e = false /\ level <> 0)) -> eff_gen KLoky e level n = Ok 1) /\
+  ((e_daemon e = true \/ e_depth e > 0 \/ (e_main e = false /\ level <> 0)) -> eff_gen KMp e level n = Ok 1).
+Proof.
+  intros e level n Hn. rewrite !eff_gen_eq_model. split; intros H.
+  - apply eff_guarded_loky; assumption.
+  - apply eff_guarded_mp; assumption.
+Qed.
+
+Lemma C15_nesting_holds :
+  (forall k, nested_backend {| bkind := k; blevel := 0 |} = {| bkind := KThr; blevel := 1 |}) /\
+  (forall k l, 1 <= l -> nested_backend {| bkind := k; blevel := l |} = {| bkind := KSeq; blevel := l + 1 |}) /\
+  (forall c s, worker_inv s -> default_tree c = true -> procs s c = 0) /\
+  (forall cpus n children, n <> 0 -> resolve cpus n <> 1 -> default_tree (Call None n children) = true ->
+     procs (top_site cpus) (Call None n children) = resolve cpus n) /\
+  (forall c cpus, default_tree c = true -> procs (top_site cpus) c = frontier cpus c).
+Proof.
+  split; [exact nested_level0|]. split; [exact nested_level_ge1|]. split; [exact procs_below_worker|].
+  split; [|exact procs_top_frontier].
+  intros cpus n children Hn Hr Hd. apply procs_top_parallel; assumption.
+Qed.
